@@ -237,6 +237,7 @@ class Machine:
         self.frames = []                   # functions being inlined
         self.nsym = 0
         self.memalg = False
+        self.obj = None
         self.words = {}                    # two-storage members: the `_size` words of this and of the other vector
         from .. import gen
         self.trivial = prog.meta.get('elem') in gen.TRIV_COPY
